@@ -465,7 +465,12 @@ func importPublicKey(pubKey []byte) (*ecies.PublicKey, error) {
 		return nil, fmt.Errorf("invalid public key length %v (expect 64/65)", len(pubKey))
 	}
 	// TODO: fewer pointless conversions
-	return ecies.ImportECDSAPublic(ToECDSAPub(pubKey65)), nil
+	pub := ToECDSAPub(pubKey65)
+	if pub == nil || pub.X == nil || pub.Y == nil {
+		// elliptic.Unmarshal answers nil coordinates for bytes that are no point of the curve
+		return nil, fmt.Errorf("invalid public key: not a point of the curve")
+	}
+	return ecies.ImportECDSAPublic(pub), nil
 }
 
 func exportPubkey(pub *ecies.PublicKey) []byte {
